@@ -308,6 +308,19 @@ class Explorer:
                 return self._simplify(new)
             if isinstance(new, ast.JoinedStr):
                 return self._simplify_fstring(new)
+            if isinstance(new, ast.Compare) and len(new.ops) == 1 and isinstance(new.ops[0], (ast.Eq, ast.NotEq)):
+                # str(<StrEnum value>) == Member  reads as  <value> == Member
+                def enumish(x):
+                    return (isinstance(x, ast.Attribute) and (dotted(x) or "").count(".") == 1 and (dotted(x) or "")[:1].isupper()) or (isinstance(x, ast.Constant) and isinstance(x.value, str))
+
+                def unstr(x):
+                    return x.args[0] if isinstance(x, ast.Call) and isinstance(x.func, ast.Name) and x.func.id == "str" and len(x.args) == 1 and not x.keywords else x
+
+                l_, r_ = new.left, new.comparators[0]
+                if enumish(r_) and unstr(l_) is not l_:
+                    new.left = unstr(l_)
+                elif enumish(l_) and unstr(r_) is not r_:
+                    new.comparators = [unstr(r_)]
             if isinstance(new, ast.Call):
                 new = self._simplify_call(new)
                 if not isinstance(new, ast.Call):
@@ -449,6 +462,28 @@ class Explorer:
         """getattr(x, "name") -> x.name;  list(<literal>) / tuple(<literal>) -> literal"""
         if isinstance(n.func, ast.Name) and n.func.id == "getattr" and len(n.args) == 2 and not n.keywords and isinstance(n.args[1], ast.Constant) and isinstance(n.args[1].value, str) and n.args[1].value.isidentifier():
             return ast.Attribute(value=n.args[0], attr=n.args[1].value, ctx=ast.Load())
+        if isinstance(n.func, ast.Name) and n.func.id == "dict" and all(k.arg is not None for k in n.keywords) and (not n.args or (len(n.args) == 1 and _const_dict(n.args[0]))):
+            keys = list(n.args[0].keys) if n.args else []
+            vals = list(n.args[0].values) if n.args else []
+            for k in n.keywords:
+                for i, kk in enumerate(keys):
+                    if kk.value == k.arg:
+                        vals[i] = k.value
+                        break
+                else:
+                    keys.append(ast.Constant(value=k.arg))
+                    vals.append(k.value)
+            return ast.Dict(keys=keys, values=vals)
+        if any(k.arg is None and _const_dict(k.value) and all(isinstance(kk.value, str) for kk in k.value.keys) for k in n.keywords):
+            kws = []
+            for k in n.keywords:
+                if k.arg is None and _const_dict(k.value) and all(isinstance(kk.value, str) for kk in k.value.keys):
+                    kws.extend(ast.keyword(arg=kk.value, value=vv) for kk, vv in zip(k.value.keys, k.value.values))
+                else:
+                    kws.append(k)
+            n = copy.copy(n)
+            n.keywords = kws
+            return n
         if isinstance(n.func, ast.Name) and n.func.id in ("list", "tuple") and len(n.args) == 1 and not n.keywords and isinstance(n.args[0], (ast.List, ast.Tuple)) and not any(isinstance(x, ast.Starred) for x in n.args[0].elts):
             elts = list(n.args[0].elts)
             return ast.List(elts=elts, ctx=ast.Load()) if n.func.id == "list" else ast.Tuple(elts=elts, ctx=ast.Load())
@@ -541,6 +576,12 @@ class Explorer:
                 if isinstance(e.left, ast.Constant):
                     r = e.left.value is None
                     return r if isinstance(e.ops[0], ast.Is) else not r
+                fresh = isinstance(e.left, (ast.Dict, ast.List, ast.Tuple, ast.Set, ast.JoinedStr, ast.BinOp, ast.ListComp, ast.DictComp, ast.Compare))
+                if isinstance(e.left, ast.Call):
+                    nm_ = (dotted(e.left.func) or unparse(e.left.func)).split(".")[-1]
+                    fresh = nm_ in ("str", "int", "float", "list", "dict", "tuple", "bool", "set", "tolist", "copy", "to_dict", "Path", "sorted") or (nm_[:1].isupper() and bool(self.prog.find_classes(nm_)))
+                if fresh:
+                    return not isinstance(e.ops[0], ast.Is)
             try:
                 return bool(eval_test(e, self.env))
             except Unknown:
@@ -629,6 +670,9 @@ class Explorer:
                 if isinstance(e.op, ast.Or) and not p:
                     for v in e.values:
                         learn(v, False)
+            elif isinstance(e, ast.Call) and isinstance(e.func, ast.Name) and e.func.id in ("all", "any") and len(e.args) == 1 and isinstance(e.args[0], (ast.Tuple, ast.List)) and (e.func.id == "all") == p:
+                for v in e.args[0].elts:  # all(...) true / any(...) false: every member is decided
+                    learn(v, p)
             elif isinstance(e, ast.Compare) and len(e.ops) == 1:
                 flip = {ast.Is: ast.IsNot, ast.IsNot: ast.Is, ast.Eq: ast.NotEq, ast.NotEq: ast.Eq, ast.Lt: ast.GtE, ast.GtE: ast.Lt, ast.Gt: ast.LtE, ast.LtE: ast.Gt, ast.In: ast.NotIn, ast.NotIn: ast.In}
                 k = flip.get(type(e.ops[0]))
@@ -790,6 +834,55 @@ class Explorer:
                             st.store[c.func.value.id] = ast.List(elts=[*cur.elts, *items], ctx=ast.Load())
                         else:
                             st.store[c.func.value.id] = ast.List(elts=[*cur.elts, ast.Starred(value=arg, ctx=ast.Load())], ctx=ast.Load())
+            if isinstance(c.func, ast.Attribute) and isinstance(c.func.value, ast.Name) and c.func.attr in ("pop", "get", "copy", "update") and not self._comp_of.get(id(c)):
+                dname = c.func.value.id
+                cur = st.store.get(dname)
+                if cur is not None and not _const_dict(cur) and isinstance(cur, ast.Call):
+                    cur = self._simplify_call(cur)
+                if _const_dict(cur):
+                    meth = c.func.attr
+                    keys, vals = list(cur.keys), list(cur.values)
+                    handled = True
+                    val = None
+                    if meth in ("pop", "get") and csub.args and isinstance(csub.args[0], ast.Constant):
+                        key = csub.args[0].value
+                        idx = next((i for i, kk in enumerate(keys) if kk.value == key), None)
+                        if idx is not None:
+                            val = vals[idx]
+                            if meth == "pop":
+                                del keys[idx], vals[idx]
+                                st.store[dname] = ast.Dict(keys=keys, values=vals)
+                        elif len(csub.args) > 1:
+                            val = csub.args[1]
+                        elif meth == "get":
+                            val = ast.Constant(value=None)
+                        else:
+                            self._emit(st, "call", csub, None, c, fi, depth)
+                            self._emit(st, "keyerror", ast.Constant(value=key), cur, c, fi, depth)
+                            yield from k.exc(st, ast.Call(func=ast.Name(id="KeyError", ctx=ast.Load()), args=[ast.Constant(value=key)], keywords=[]), c)
+                            return
+                    elif meth == "copy" and not csub.args:
+                        val = ast.Dict(keys=keys, values=vals)
+                    elif meth == "update" and ((len(csub.args) == 1 and _const_dict(self._simplify_call(csub.args[0]) if isinstance(csub.args[0], ast.Call) else csub.args[0])) or (not csub.args and csub.keywords and all(k_.arg for k_ in csub.keywords))):
+                        other = (self._simplify_call(csub.args[0]) if isinstance(csub.args[0], ast.Call) else csub.args[0]) if csub.args else ast.Dict(keys=[ast.Constant(value=k_.arg) for k_ in csub.keywords], values=[k_.value for k_ in csub.keywords])
+                        for kk, vv in zip(other.keys, other.values):
+                            j = next((i for i, k2 in enumerate(keys) if k2.value == kk.value), None)
+                            if j is None:
+                                keys.append(kk)
+                                vals.append(vv)
+                            else:
+                                vals[j] = vv
+                        st.store[dname] = ast.Dict(keys=keys, values=vals)
+                        val = ast.Constant(value=None)
+                    else:
+                        handled = False
+                    if handled:
+                        self._emit(st, "call", csub, None, c, fi, depth)
+                        self._tmp += 1
+                        tmp = f"⟨dict{self._tmp}⟩"
+                        st.store[tmp] = val
+                        st.repl[id(c)] = tmp
+                        continue
             if self.call_value is not None:
                 try:
                     fs = self.prog.resolve_call(fi, c).funcs()
